@@ -175,7 +175,13 @@ def check_case(case, res, tier):
             return run_instr(eng, shape, kinds, consts)
         finally:
             Mode.symbolic = False
-    rs = eng.explore(fn)
+    try:
+        rs = eng.explore(fn)
+    except core.NonDeterminism as ex:
+        # the replay-based exploration met another decision sequence on a re-run of the same prefix (state the harness does not
+        # reset between paths): nothing is concluded for this case
+        res['inconclusive'].append('%s: exploration not deterministic (%s)' % (name, ex))
+        return
     res['paths'] += eng.stats['paths']
     res['queries'] += eng.stats['queries']
     res['solver_s'] += eng.stats['solver_s']
